@@ -362,7 +362,13 @@ def parse_file(
         encoding = "utf-8-sig"
 
     if filename == "-":
-        content = sys.stdin.read()
+        # decode the bytes ourselves so that `encoding` is honored; a replaced
+        # sys.stdin (e.g. io.StringIO) has no binary layer and is read as text
+        stdin_bytes = getattr(sys.stdin, "buffer", None)
+        if stdin_bytes is not None:
+            content = stdin_bytes.read().decode(encoding)
+        else:
+            content = sys.stdin.read()
     else:
         content = None
 
